@@ -536,7 +536,7 @@ func vRun(t *testing.T, sc *vScenario, opt vRunOpts) (res *vRunResult) {
 		}
 		s.setHook(hook)
 		s.Z.Hook = hook
-		if sc.Fault != nil && sc.Fault.Occ == 0 {
+		if sc.Fault != nil && (sc.Fault.Occ == 0 || sc.Fault.FromStart) {
 			hook.arm(sc.Fault) // a persistent fault holds from the very start
 		}
 		// processes: the designated manager first so that it takes the lock
@@ -581,7 +581,7 @@ func vRun(t *testing.T, sc *vScenario, opt vRunOpts) (res *vRunResult) {
 				}
 			}
 		}()
-		if sc.Fault == nil || sc.Fault.Occ != 0 {
+		if sc.Fault == nil || (sc.Fault.Occ != 0 && !sc.Fault.FromStart) {
 			hook.arm(sc.Fault)
 		}
 		s.fileRequest(sc)
